@@ -9,6 +9,25 @@ Open Scope Z_scope.
 
 Definition xor_lists (a b : list Z) : list Z := map (fun p => Z.lxor (fst p) (snd p)) (combine a b).
 
+(* ---- a toy MAC with a 61-bit polynomial state (every single-byte change of the input changes
+   the state; toys.ToyMac's 20-bit shift register forgets early bytes, which would make the
+   C02 direct oracle see "forgeries" that are toy collisions) ------------------------------------ *)
+Definition TM_P : Z := 2305843009213693951.      (* 2^61 - 1 *)
+Definition tm_base (key : list Z) : Z := fold_left (fun h b => (h * 257 + b + 1) mod TM_P) key 1000003 + 2.
+Definition tm_absorb (base : Z) (h b : Z) : Z := (h * base + b + 1) mod TM_P.
+Fixpoint tm_out (fuel : nat) (base h : Z) (n : Z) : list Z :=
+  match fuel with
+  | O => []
+  | S f => if n <=? 0 then [] else
+           map (fun j => Z.land (Z.shiftr h (8 * j)) 255) (firstn (Z.to_nat (Z.min n 7)) [0; 1; 2; 3; 4; 5; 6])
+           ++ tm_out f base ((h * base + 17) mod TM_P) (n - 7)
+  end.
+Definition toy2_mac (key : list Z) (ds : Z) (msg : list Z) : list Z :=
+  let base := tm_base key in
+  tm_out (S (Z.to_nat ds)) base (fold_left (tm_absorb base) msg (base mod 65521 + 1)) ds.
+Definition toy2_hmac (key : list Z) (ds bs : Z) : HMac :=
+  {| mac_ds := ds; mac_bs := bs; mac_fn := toy2_mac key ds; mac_acc := [] |}.
+
 (* ---- stream cipher: state [h]; one keystream byte per input byte ------------------ *)
 Definition ts_step (h : Z) : Z := (h * 75 + 74) mod 65537.
 Fixpoint ts_run (h : Z) (x : list Z) : Z * list Z :=
@@ -52,7 +71,7 @@ Definition cbc_dec (bs : Z) (key : list Z) (iv x : list Z) := cbc_dec_fuel (leng
 
 (* ---- AEAD: ct = pt xor keystream(key, nonce); tag = toy_mac over nonce, aad, ct ------------ *)
 Definition ta_tag (key : list Z) (tl : Z) (nonce aad ct : list Z) : list Z :=
-  toy_mac key tl (nonce ++ [zlen aad mod 256] ++ aad ++ ct).
+  toy2_mac key tl (nonce ++ [zlen aad mod 256] ++ aad ++ ct).
 Definition ta_ks0 (key nonce : list Z) : Z := fold_left (fun h b => ts_step (h + b)) (key ++ nonce) 7.
 Definition ta_seal (key : list Z) (tl : Z) (nonce pt aad : list Z) : list Z :=
   let ct := snd (ts_run (ta_ks0 key nonce) pt) in ct ++ ta_tag key tl nonce aad ct.
@@ -68,11 +87,11 @@ Definition no_seal (n p a : list Z) : list Z := [].
 Definition no_open (n c a : list Z) : option (list Z) := None.
 
 Definition toy_prim_stream (mackey : list Z) (mds mbs : Z) : Prim (list Z) :=
-  {| pr_enc := ts_crypt; pr_dec := ts_crypt; pr_mac := toy_hmac mackey mds mbs;
+  {| pr_enc := ts_crypt; pr_dec := ts_crypt; pr_mac := toy2_hmac mackey mds mbs;
      pr_seal := no_seal; pr_open := no_open |}.
 Definition toy_prim_cbc (bs : Z) (key mackey : list Z) (mds mbs : Z) : Prim (list Z) :=
-  {| pr_enc := cbc_enc bs key; pr_dec := cbc_dec bs key; pr_mac := toy_hmac mackey mds mbs;
+  {| pr_enc := cbc_enc bs key; pr_dec := cbc_dec bs key; pr_mac := toy2_hmac mackey mds mbs;
      pr_seal := no_seal; pr_open := no_open |}.
 Definition toy_prim_aead (key : list Z) (tl : Z) : Prim (list Z) :=
-  {| pr_enc := fun s x => (s, x); pr_dec := fun s x => (s, x); pr_mac := toy_hmac [] 0 64;
+  {| pr_enc := fun s x => (s, x); pr_dec := fun s x => (s, x); pr_mac := toy2_hmac [] 0 64;
      pr_seal := ta_seal key tl; pr_open := ta_open key tl |}.
